@@ -140,3 +140,15 @@ pub fn chunked_read<T: Fam, S: Src, const CHUNK: usize>(s: &mut S) {
         Err(e) => { core::mem::forget(e); assert!(false, "C08: chunked reads of intact data must load"); }
     }
 }
+
+/// C08 (writer, failing flush): save must return Err when the final flush of the caller's writer fails.
+pub fn flush_fail<T: Fam, S: Src>(s: &mut S) {
+    let v = T::sym(s);
+    let mut w = FaultWriter::new();
+    w.flush_fails = true;
+    w.kind = std::io::ErrorKind::BrokenPipe;
+    let r = savefile::save_noschema(&mut w, T::VERSION, &v);
+    let e = r.is_err();
+    core::mem::forget(r);
+    assert!(e, "C08: a failing flush of the underlying writer surfaces as Err from save");
+}
